@@ -798,4 +798,181 @@ theorem fclaimU_succ {n : Nat} (hB : FClaimB n) : FClaimU (n + 1) := by
   | brk l rs' => rw [hres] at hsim; exact hsim.elim
   | cont l rs' => rw [hres] at hsim; exact hsim.elim
 
+/-! ## The call instruction: the reference side -/
+
+/-- what `Ref.eval` does with a call once the callee is evaluated -/
+def refCall (k : Nat) (fv : Val) (args : List Expr) (env : Nat) (s : Ref.St) : Ref.R Val :=
+  if (match fv with | .arr _ => true | _ => false) then
+    (match Ref.evalList (k + 1) args env s with
+     | .ok _ s => .err s
+     | .err s => .err s | .brk l s => .brk l s | .cont l s => .cont l s | .timeout => .timeout)
+  else if !isFunction fv then (if args.isEmpty then .ok fv s else .err s)
+  else
+    let lazyAt : Nat → Bool := match fv with
+      | .fn id => (match s.clos[id]? with
+        | some c => fun i => i < c.ps.length && Ref.isLazyParam (c.ps.getD i "")
+        | none => fun _ => false)
+      | _ => fun _ => false
+    (match Ref.evalArgs (k + 1) args 0 lazyAt env s with
+     | .ok vs s => Ref.applyFn (k + 1) fv vs s
+     | .err s => .err s | .brk l s => .brk l s | .cont l s => .cont l s | .timeout => .timeout)
+
+theorem ref_eval_call_sym (k : Nat) (h : String) (args : List Expr) (env : Nat) (rs : Ref.St) :
+    Ref.eval (k + 2) (.call (.sym h) args) env rs =
+      match Ref.lookup rs env h with
+      | some (_, fv) => refCall k fv args env rs
+      | none => .err rs := by
+  rw [Ref.eval, Ref.eval]
+  cases Ref.lookup rs env h with
+  | none => rfl
+  | some r => rfl
+
+theorem okParam_not_lazy {p : String} (h : okParam p = true) : Ref.isLazyParam p = false := by
+  unfold okParam at h; simp only [Bool.and_eq_true, Bool.not_eq_true'] at h
+  exact h.2
+
+theorem refCall_fn (k cid : Nat) (args : List Expr) (env : Nat) (rs : Ref.St) (c : Ref.Clos)
+    (hc : rs.clos[cid]? = some c) (hp : ∀ p ∈ c.ps, okParam p = true) :
+    refCall k (.fn cid) args env rs =
+      match Ref.evalArgs (k + 1) args 0 (fun _ => false) env rs with
+      | .ok vs s => Ref.applyFn (k + 1) (.fn cid) vs s
+      | .err s => .err s | .brk l s => .brk l s | .cont l s => .cont l s | .timeout => .timeout := by
+  unfold refCall
+  have hl : (fun i => decide (i < c.ps.length) && Ref.isLazyParam (c.ps.getD i "")) = fun _ => false := by
+    funext i
+    by_cases hi : i < c.ps.length
+    · have : c.ps.getD i "" = c.ps[i] := by simp [List.getD_eq_getElem?_getD, hi]
+      rw [this, okParam_not_lazy (hp _ (List.getElem_mem hi))]; simp
+    · simp [hi]
+  simp only [isFunction, Bool.not_true, Bool.false_eq_true, if_false, hc, hl]
+
+theorem refCall_builtin (k : Nat) (name : String) (args : List Expr) (env : Nat) (rs : Ref.St) :
+    refCall k (.builtin name) args env rs =
+      match Ref.evalArgs (k + 1) args 0 (fun _ => false) env rs with
+      | .ok vs s => Ref.applyFn (k + 1) (.builtin name) vs s
+      | .err s => .err s | .brk l s => .brk l s | .cont l s => .cont l s | .timeout => .timeout := by
+  unfold refCall
+  simp only [isFunction, Bool.not_true, Bool.false_eq_true, if_false]
+
+theorem ref_evalList_eq_evalArgs : ∀ (n : Nat) (es : List Expr) (i env : Nat) (rs : Ref.St),
+    Ref.evalList n es env rs = Ref.evalArgs n es i (fun _ => false) env rs
+  | 0, es, i, env, rs => by rw [Ref.evalList, Ref.evalArgs]
+  | n + 1, [], i, env, rs => by
+    rw [Ref.evalList, Ref.evalArgs]
+    · omega
+    · omega
+  | n + 1, e :: es, i, env, rs => by
+    rw [Ref.evalList, Ref.evalArgs]
+    simp only [Bool.false_eq_true, if_false]
+    cases Ref.eval n e env rs with
+    | ok v rs1 => simp only [ref_evalList_eq_evalArgs n es (i + 1) env rs1]
+    | _ => rfl
+
+theorem refCall_arr (k r : Nat) (args : List Expr) (env : Nat) (rs : Ref.St) :
+    refCall k (.arr r) args env rs =
+      match Ref.evalArgs (k + 1) args 0 (fun _ => false) env rs with
+      | .ok _ s => .err s
+      | .err s => .err s | .brk l s => .brk l s | .cont l s => .cont l s | .timeout => .timeout := by
+  unfold refCall
+  simp only [if_true, ref_evalList_eq_evalArgs (k + 1) args 0 env rs]
+
+theorem refCall_other (k : Nat) (fv : Val) (args : List Expr) (env : Nat) (rs : Ref.St) (h1 : ∀ id, fv ≠ .fn id)
+    (h2 : ∀ n, fv ≠ .builtin n) (h3 : ∀ r, fv ≠ .arr r) :
+    refCall k fv args env rs = if args.isEmpty then .ok fv rs else .err rs := by
+  unfold refCall
+  cases fv with
+  | fn id => exact absurd rfl (h1 id)
+  | builtin n => exact absurd rfl (h2 n)
+  | arr r => exact absurd rfl (h3 r)
+  | _ => simp only [isFunction, Bool.not_false, if_true, Bool.false_eq_true, if_false]
+
+/-! ## The call instruction: the machine against the reference -/
+
+theorem ref_applyFn_arity (k cid : Nat) (vs' : List Val) (rs : Ref.St) (c : Ref.Clos) (hc : rs.clos[cid]? = some c)
+    (hrest : c.rest = none) (hne : vs'.length ≠ c.ps.length) : Ref.applyFn (k + 1) (.fn cid) vs' rs = .err rs := by
+  rw [Ref.applyFn]
+  simp only [hc, Ref.bindParams, hrest, hne, if_false]
+
+/-- a call whose callee symbol denotes a closure object -/
+theorem simF_call_fn {k : Nat} (hA : FClaimA (k + 1)) (hU : FClaimU (k + 1)) {h : String} {args : List Expr}
+    (hargs : FaList args = true) {m : Nat → Nat} {s : St} {rs : Ref.St} {env : Nat} {pre post : List Instr} {i vid : Nat}
+    (hrel : RelF m s rs env) (hseg : Seg s pre [.callExpr (.sym h) args] post)
+    (hl : lexLookup s h = some (i, .fn vid)) (hg : GoodFn m s rs vid) :
+    SimF [.callExpr (.sym h) args] m s rs env (refCall k (.fn (m vid)) args env rs) := by
+  obtain ⟨c, hc1, henv, hrest, hnd, hokp, hbody, hparams, hnargs, hvar, huser, hclo, _, _⟩ := hg.clo
+  rw [refCall_fn k (m vid) args env rs c hc1 hokp]
+  have hfo : NoLazy (some (fnOf s vid)) := by
+    intro f hf
+    injection hf with hf; subst hf
+    unfold FnObj.hasLazyFormals
+    rw [hparams, List.any_eq_false]
+    intro p hp
+    have := okParam_not_lazy (hokp p hp)
+    unfold Ref.isLazyParam at this
+    simp [this]
+  have hprep := hA args hargs (some (fnOf s vid)) hfo 0 m s rs env hrel
+  have hexec : ∀ F, (exec (F + 3) (.callExpr (.sym h) args)).run s
+      = guardedRun s.data.length
+          ((prepareArgs (F + 1) (some (fnOf s vid)) 0 args >>= fun _ => callFunction vid args.length : M Unit).run s) :=
+    fun F => by rw [exec_callExpr_sym F h args s i _ hl, run_callResolved_fn]
+  obtain ⟨b0, hch, hfc⟩ := hrel.ctx
+  have hcurlt := hfc.lt
+  cases h1 : Ref.evalArgs (k + 1) args 0 (fun _ => false) env rs with
+  | ok vs' rs1 =>
+    rw [h1] at hprep
+    obtain ⟨M, s1, m1, vs, hM, hd1, hp1, hvs, rel1, hm1, ext1, fr1, hcl⟩ := hprep
+    simp only
+    have hlen : args.length = vs.length := by
+      rw [← ref_evalArgs_length _ _ _ _ _ _ _ h1, hvs, List.length_map]
+    have hfo1 : fnOf s1 vid = fnOf s vid := fr1.fns vid hg.lt
+    have hcf := run_callFunction_fixed vid vs s.data s1 hd1 (by rw [hfo1]; exact hvar)
+    have hg1 : GoodFn m1 s1 rs1 vid := hg.ext fr1.toFrame ext1 hm1
+    have hmv : m1 vid = m vid := hm1 vid hg.lt
+    by_cases har : vs.length = (fnOf s1 vid).nargs
+    · -- control enters the callee
+      rw [if_pos har] at hcf
+      have hx : ∀ f, M + 3 ≤ f → (exec (f + 1) (.callExpr (.sym h) args)).run s = (.ok (), entered s1 vid) := by
+        intro f hf
+        obtain ⟨G, rfl⟩ : ∃ G, f = G + 2 := ⟨f - 2, by omega⟩
+        rw [hexec G, run_bind, hM (G + 1) (by omega)]
+        simp only
+        rw [hlen, hcf]; rfl
+      have r1 : ReachX s (entered s1 vid) := ReachX.step hseg.head (M + 3) hx
+      have hu := hU m1 s1 rs1 env vid vs s.data rel1 hg1 hd1 hcl har
+      rw [hmv, ← hvs] at hu
+      cases h2 : Ref.applyFn (k + 1) (.fn (m vid)) vs' rs1 with
+      | ok v' rs2 =>
+        rw [h2] at hu
+        obtain ⟨s', m', v, r2, hpc, hdat, hv, rel2, hm2, ext2, fr2, hcl2⟩ := hu
+        refine ⟨s', m', v, r1.trans r2, ⟨?_, by rw [hpc, hp1]; simp, hdat⟩, hv, rel2, hm1.trans hm2 fr1.fnsLen,
+          ext1.trans ext2, fr1.trans fr2, hcl2⟩
+        rw [fr2.curfunc, fr1.curfunc, fr2.fns _ (by rw [← fr1.curfunc]; exact Nat.lt_of_lt_of_le (by rw [fr1.curfunc]; exact hcurlt) fr1.fnsLen),
+          fr1.fns _ hcurlt]
+      | err rs2 => rw [h2] at hu; exact FailsX.of_reach r1 hu
+      | timeout => trivial
+      | brk l rs2 => rw [h2] at hu; exact hu.elim
+      | cont l rs2 => rw [h2] at hu; exact hu.elim
+    · -- wrong number of arguments
+      rw [if_neg har] at hcf
+      have hne : vs'.length ≠ c.ps.length := by
+        rw [hvs, List.length_map, ← hnargs, ← hfo1]; exact har
+      rw [ref_applyFn_arity k (m vid) vs' rs1 c (ext1.2 _ _ hc1) hrest hne]
+      refine FailsX.step hseg.head (M + 3) (fun f hf => ?_)
+      obtain ⟨G, rfl⟩ : ∃ G, f = G + 2 := ⟨f - 2, by omega⟩
+      refine ⟨{ s1 with data := truncate s1.data s.data.length }, ?_, rel1.trace⟩
+      rw [hexec G, run_bind, hM (G + 1) (by omega)]
+      simp only
+      rw [hlen, hcf]; rfl
+  | err rs1 =>
+    rw [h1] at hprep
+    obtain ⟨M, hM⟩ := hprep
+    simp only
+    refine FailsX.step hseg.head (M + 2) (fun f hf => ?_)
+    obtain ⟨F, rfl⟩ : ∃ F, f = F + 2 := ⟨f - 2, by omega⟩
+    obtain ⟨se, hse, htr⟩ := hM (F + 1) (by omega)
+    exact ⟨{ se with data := truncate se.data s.data.length }, by rw [hexec F, run_bind, hse]; rfl, htr⟩
+  | timeout => trivial
+  | brk l rs1 => rw [h1] at hprep; exact hprep.elim
+  | cont l rs1 => rw [h1] at hprep; exact hprep.elim
+
 end ZygoVerif.Sim
